@@ -104,6 +104,18 @@ def flow_col_atol(scn, ref, times):
             out[l['id']] = 1e-6 + max(1e-5 / max(refmodel.pipe_dhdq(l, max(q, 1e-4)), 1e-4), near_zero)
         else:
             out[l['id']] = 1e-5
+    # links between the same pair of nodes share their head difference: the split of the flow among them is as ill-conditioned as
+    # the least resistive of them (an open valve without minor loss next to a fat pipe), so they share the largest slack
+    pairs = {}
+    for l in scn['links']:
+        pairs.setdefault(frozenset((l['a'], l['b'])), []).append(l['id'])
+    for ids in pairs.values():
+        if len(ids) > 1:
+            m = max(out[i] for i in ids)
+            if any(next(x for x in scn['links'] if x['id'] == i)['type'] == 'valve' for i in ids):
+                m = max(m, 1e-4)
+            for i in ids:
+                out[i] = m
     return out
 
 
